@@ -14,6 +14,7 @@ import traceback
 
 ROOT = os.path.dirname(os.path.dirname(os.path.abspath(__file__)))
 sys.path.insert(0, ROOT)
+GEN_MEM_BYTES = 8 << 30
 GEN_BUDGET_S = int(os.environ.get("PYVC_GEN_BUDGET_S", "900"))   # per generation round (all keys of the round run in parallel); the slowest key takes ~15 s on an idle machine
 
 
@@ -40,6 +41,11 @@ def _gen_worker(key, in_child=False):
     from pyvc.state import OutOfSubset, ContractDrift
     t0 = time.time()
     try:
+        import resource
+        resource.setrlimit(resource.RLIMIT_AS, (GEN_MEM_BYTES, GEN_MEM_BYTES))   # a runaway z3 call during path pruning ends in MemoryError -> undecided
+    except Exception:
+        pass
+    try:
         reg = driver.load_contracts()
         from pyvc import vals
         if reg.contracts[key].view == "string" and not vals.STRING_MODE:
@@ -65,6 +71,8 @@ def _gen_worker(key, in_child=False):
     except ContractDrift as e:
         return dict(key=key, status="contract-drift", error=str(e))
     except Exception as e:  # engine crash
+        if isinstance(e, MemoryError) or "out of memory" in str(e).lower():
+            return dict(key=key, status="out-of-subset", error=f"VC generation exceeded its memory limit ({type(e).__name__}); undecided, not a verdict")
         return dict(key=key, status="crash", error=f"{type(e).__name__}: {e}", tb=traceback.format_exc())
 
 
